@@ -146,3 +146,64 @@ Lemma equal_content_rule_loses_latest :
   dget (s_store (drun del_eq lost_evs)) 0x1F09 = None /\
   dget (s_store (drun del_is lost_evs)) 0x1F09 = Some (mkD 2 0x1F09 5).
 Proof. vm_compute. repeat split; try reflexivity. intros [H|[]]. discriminate. Qed.
+
+(* ---------------------------------------------------------------- what a later snapshot shows does not depend on earlier reads *)
+(* everything ever scheduled for removal was an arrival *)
+Lemma sched_are_arrivals evs : forall d, In d (s_sched (drun del_is evs)) -> In d (arrivals evs).
+Proof.
+  induction evs as [|e evs IH] using rev_ind; [intros d []|].
+  intros d. unfold drun in *. rewrite fold_left_app, arrivals_snoc. cbn [fold_left].
+  set (s := fold_left (dstep del_is) evs dinit) in *.
+  destruct e as [m|code expd|]; cbn [dstep].
+  - cbn [s_sched]. intros H. apply in_or_app. left. apply IH, H.
+  - rewrite app_nil_r. destruct (dget (s_store s) code) as [m|] eqn:G; [|apply IH]. destruct expd; [|apply IH].
+    cbn [s_sched]. intros [<-|H]; [|apply IH, H].
+    destruct (run_inv evs) as (_ & A & _). fold (drun del_is evs) in *. apply A in G. apply latest_In in G. apply G.
+  - rewrite app_nil_r. cbn [s_sched]. apply IH.
+Qed.
+
+(* the reads are HONEST for a verdict [exp] (the expiry verdict at the time of the snapshot; expiry never un-happens): a read only finds
+   expired what is expired then *)
+Fixpoint honest (exp : dmsg -> bool) (s : dstate) (evs : list dev) : Prop :=
+  match evs with
+  | [] => True
+  | e :: r => (match e with
+               | DRead c true => match dget (s_store s) c with Some m => exp m = true | None => True end
+               | _ => True end) /\ honest exp (dstep del_is s e) r
+  end.
+Lemma honest_sched exp : forall evs s, honest exp s evs -> (forall d, In d (s_sched s) -> exp d = true) ->
+  forall d, In d (s_sched (fold_left (dstep del_is) evs s)) -> exp d = true.
+Proof.
+  induction evs as [|e r IH]; intros s H Hs d; cbn [fold_left]; [apply Hs|].
+  destruct H as (He & Hr). apply (IH _ Hr). intros d'. destruct e as [m|c [|]|]; cbn [dstep]; try apply Hs.
+  - destruct (dget (s_store s) c) as [m|]; [|apply Hs]. cbn [s_sched]. intros [<-|H']; [exact He|apply Hs, H'].
+  - destruct (dget (s_store s) c); apply Hs.
+Qed.
+
+Definition live (exp : dmsg -> bool) (st : dstore) (c : Z) : option dmsg :=
+  match dget st c with Some m => if exp m then None else Some m | None => None end.
+
+(* what is live in the store -- what a snapshot without expired packets shows -- is a function of the ARRIVALS alone: however many reads,
+   honest about expiry, and loop turns are interleaved, it is the newest arrival of each code unless that has expired *)
+Theorem live_view_independent_of_reads exp evs c :
+  NoDup (map d_id (arrivals evs)) -> honest exp dinit evs ->
+  live exp (s_store (drun del_is evs)) c = match latest (arrivals evs) c with Some m => if exp m then None else Some m | None => None end.
+Proof.
+  intros U H. unfold live.
+  destruct (latest (arrivals evs) c) as [m|] eqn:L.
+  - destruct (exp m) eqn:E.
+    + destruct (dget (s_store (drun del_is evs)) c) as [x|] eqn:G; [|reflexivity].
+      apply held_is_latest in G. rewrite L in G. injection G as <-. rewrite E. reflexivity.
+    + rewrite (latest_never_lost evs c m L); [rewrite E; reflexivity|].
+      intros Hin. apply in_map_iff in Hin as (d & Hid & Hd).
+      assert (Ed : exp d = true) by (apply (honest_sched exp evs dinit H (fun _ F => match F with end) d Hd)).
+      assert (d = m).
+      { pose proof (sched_are_arrivals evs d Hd) as Ad. destruct (latest_In _ _ _ L) as (Am & _).
+        clear -U Ad Am Hid. induction (arrivals evs) as [|a l IH]; [destruct Ad|].
+        cbn [map] in U. inversion U as [|? ? Hn Hu]; subst. destruct Ad as [->|Ad], Am as [<-|Am]; auto.
+        - exfalso. apply Hn. rewrite Hid. apply in_map, Am.
+        - exfalso. apply Hn. rewrite <- Hid. apply in_map, Ad. }
+      subst d. congruence.
+  - destruct (dget (s_store (drun del_is evs)) c) as [x|] eqn:G; [|reflexivity].
+    apply held_is_latest in G. congruence.
+Qed.
